@@ -42,6 +42,8 @@ func init() {
 				Edits: []Edit{{File: "driver/generic/sendwithcallbacks.go", Old: "\tif cb.Complete {\n\t\treturn fb, nil\n\t}", New: "\tif cb.Complete {\n\t\treturn b, nil\n\t}"}}},
 			{ID: "C18-last-match-wins", Desc: "scan keeps going after the first match", Rule: "C18/first-in-order",
 				Edits: []Edit{{File: "driver/generic/sendwithcallbacks.go", Old: "\t\t\t\tfor i, cb := range callbacks {\n\t\t\t\t\tif cb.check(b) {", New: "\t\t\t\tfor i := len(callbacks) - 1; i >= 0; i-- {\n\t\t\t\t\tcb := callbacks[i]\n\t\t\t\t\tif cb.check(b) {"}}},
+			{ID: "C18-skip-scan-when-quiet", Desc: "triggers only re-evaluated when new bytes arrived", Rule: "C18/scan-every-pass",
+				Edits: []Edit{{File: "driver/generic/sendwithcallbacks.go", Old: "\t\t\t\tb = append(b, rb...)\n\t\t\t\tfb = append(fb, rb...)\n\n\t\t\t\tfor i, cb := range callbacks {", New: "\t\t\t\tif len(rb) == 0 {\n\t\t\t\t\tcontinue\n\t\t\t\t}\n\n\t\t\t\tb = append(b, rb...)\n\t\t\t\tfb = append(fb, rb...)\n\n\t\t\t\tfor i, cb := range callbacks {"}}},
 			{ID: "C18-needle-not-lowered", Desc: "haystack lower-cased but needle left as given", Rule: "C18/case",
 				Edits: []Edit{{File: "driver/generic/sendwithcallbacks.go", Old: "\t\tc.containsBytes = []byte(c.Contains)\n\n\t\tif c.Insensitive {\n\t\t\tc.containsBytes = bytes.ToLower(c.containsBytes)\n\t\t}", New: "\t\tc.containsBytes = []byte(c.Contains)"}}},
 			{ID: "C18-next-timeout-ignored", Desc: "NextTimeout ignored", Rule: "C18/execute",
@@ -62,6 +64,7 @@ func runC18(c *Ctx, r *Report) {
 	r.Rule("C18/trigger-table", "check(b) == (Contains!=\"\" && contains(b) || ContainsRe!=nil && re(b)) && !(NotContains!=\"\" && b contains the not-contains text), for all 128 rows", 128)
 	r.Rule("C18/case", "haystack and needles are lower-cased under the same Insensitive flag, which defaults to true", 4)
 	r.Rule("C18/first-in-order", "callbacks are scanned by a range loop in list order and the first true check leaves the scan with that index", 1)
+	r.Rule("C18/scan-every-pass", "every pass of the handleCallbacks poll loop evaluates the triggers on the accumulated output, whether or not the read returned new bytes", 1)
 	r.Rule("C18/execute", "Once&&triggered -> ErrOperationError without running the callback; triggered set before the callback; callback gets the accumulated output; Complete returns the full buffer; ResetOutput clears only the trigger buffer; NextTimeout honoured", 6)
 	r.Rule("C18/timeout", "the deadline edge of handleCallbacks returns ErrTimeoutError", 1)
 	r.Rule("C18/options", "each callback option stores the setting it names", 9)
@@ -303,6 +306,27 @@ func checkCallbackScan(c *Ctx, r *Report, check *ssa.Function) {
 		r.Bad(rule, "handleCallbacks scan", c.Pos(site.Pos()), "the index reported for the triggered callback is not the position of the callback whose check was true")
 	default:
 		r.OK(rule, "handleCallbacks scan", c.Pos(site.Pos()), "range order, first true check reported with its own index")
+	}
+	// every pass of the poll loop evaluates the triggers: no path from the channel read back to the
+	// channel read that does not enter the scan (the carried-over buffer of a callback that does not
+	// reset the output must be looked at even when the device is quiet)
+	rule2 := "C18/scan-every-pass"
+	chRead := c.LookupFunc("channel", "Channel", "Read")
+	var reads []ssa.CallInstruction
+	if chRead != nil {
+		reads = staticCallsTo(worker, chRead)
+	}
+	if len(reads) == 0 {
+		r.Unk(rule2, "handleCallbacks poll loop", c.Pos(worker.Pos()), "no call of (*Channel).Read in the function that scans the callbacks")
+		return
+	}
+	for _, rd := range reads {
+		rr2 := reachFrom(worker, rd, func(in ssa.Instruction) bool { return in.Block() == hdr }, nil)
+		if rr2.visited[rd] {
+			r.Bad(rule2, "handleCallbacks poll loop", c.Pos(rd.Pos()), "a pass of the poll loop can return to the channel read without evaluating the triggers: "+strings.Join(rr2.witness(c, rd), " -> "))
+		} else {
+			r.OK(rule2, "handleCallbacks poll loop", c.Pos(rd.Pos()), "every path from the read back to the read enters the trigger scan")
+		}
 	}
 }
 
